@@ -1,48 +1,55 @@
-(* C12 refutation witnesses: the faithful in-place / shared-state variants VIOLATE the property
-   statements (each by an explicit instance, checked by computation). *)
+(* C12 negative witnesses: shapes that VIOLATE the property statements are rejected by the analyses
+   and really violate (each by an explicit instance, checked by computation).  None of them is an
+   open finding any more: the three in-place / own-parameter shapes are what /repo had BEFORE the
+   repairs (HampelFilter.transform without the copy; Imputer(method="random") on a DataFrame;
+   Imputer(method="forecaster") fitting its own `forecaster` parameter) - kept as historical
+   witnesses that the aliasing analysis is not trivially accepting; C12/Bridge.v proves that the
+   programs regenerated from the present source are all accepted. *)
 From Coq Require Import ZArith List Bool Arith Lia Permutation.
 Require Import SkV.C12.Model.
 Import ListNotations.
 Open Scope Z_scope.
 
 Definition nan : Z := 1.                       (* any marker value *)
-Definition ff (_ _ : buf) : bool := false.
-Definition tt' (_ _ : buf) : bool := true.
-Definition one (_ _ : buf) : nat := 1%nat.
-Definition keep (_ cb : buf) : buf := cb.
-Definition write_nan (_ cb : buf) : buf := nan :: tl cb.      (* Z.iloc[0] = np.nan *)
+Definition ff (_ : buf) (_ : list buf) : bool := false.
+Definition tt' (_ : buf) (_ : list buf) : bool := true.
+Definition one (_ : buf) (_ : list buf) : nat := 1%nat.
+Definition keep (_ : buf) (v : list buf) : buf := nth 0 v [].
+Definition write_nan (_ : buf) (v : list buf) : buf := nan :: tl (nth 0 v []).   (* Z.iloc[0] = nan *)
 
 (* the caller's series [60; 2; 3] at id 0, the estimator's state at id 1 *)
 Definition st_ex : store := [[60; 2; 3]; [7]].
 
-(* OLD HampelFilter.transform (no copy): the caller's series gets the NaN *)
-Lemma hampel_old_modifies_caller_refuted :
-  exists copy h g isf rb nc nw st caller,
-    get (fst (apply 1 (hampel_old h g isf rb nc nw) st caller)) caller <> get st caller /\
-    is_safe false (hampel_old h g isf rb nc nw) = false /\
-    (* ... while the copying version of /repo leaves it alone on the same input *)
-    get (fst (apply 1 (hampel_now copy h g isf rb nc nw) st caller)) caller = get st caller.
+(* HISTORICAL (repaired): transform writing `Z.iloc[j] = ..` into the validated input *)
+Lemma inplace_loop_modifies_caller_refuted :
+  exists g nc st caller,
+    get (fst (apply 1 (old_inplace_loop g nc) st caller)) caller <> get st caller /\
+    is_safe false (old_inplace_loop g nc) = false /\
+    (* ... while deriving a copy first leaves it alone on the same input *)
+    get (fst (apply 1 (copy_first g) st caller)) caller = get st caller.
 Proof.
-  exists keep, keep, write_nan, ff, ff, one, one, st_ex, 0%nat.
-  vm_compute. repeat split; congruence.
+  exists write_nan, one, st_ex, 0%nat. vm_compute. repeat split; congruence.
 Qed.
 
-(* Imputer(method="random") on a DataFrame: `Z[col] = ...` on the caller's frame (open finding) *)
-Lemma imputer_random_frame_modifies_caller_refuted :
-  exists h g fitg mv nc st caller,
-    get (fst (apply 1 (imputer h g fitg mv nc MRandom true) st caller)) caller <> get st caller /\
-    is_safe false (imputer h g fitg mv nc MRandom true) = false.
+(* HISTORICAL (repaired): Imputer(method="random") on a DataFrame: `Z[col] = ...` on the caller's
+   frame - only on the frame branch, which is why one dataset did not show it *)
+Lemma random_frame_modifies_caller_refuted :
+  exists h g st caller,
+    get (fst (apply 1 (old_random_frame h g tt' one) st caller)) caller <> get st caller /\
+    get (fst (apply 1 (old_random_frame h g ff one) st caller)) caller = get st caller /\
+    is_safe false (old_random_frame h g tt' one) = false.
 Proof.
-  exists keep, write_nan, keep, ff, one, st_ex, 0%nat. vm_compute. split; congruence.
+  exists keep, write_nan, st_ex, 0%nat. vm_compute. repeat split; congruence.
 Qed.
 
-(* Imputer(method="forecaster"): transform fits the estimator's own `forecaster` parameter *)
-Lemma imputer_forecaster_changes_estimator_refuted :
-  exists h g fitg mv nc st caller,
-    get (fst (apply 1 (imputer h g fitg mv nc MForecaster false) st caller)) 1%nat <> get st 1%nat /\
-    is_safe false (imputer h g fitg mv nc MForecaster false) = false.
+(* HISTORICAL (repaired): Imputer(method="forecaster"): transform fits the estimator's own
+   `forecaster` parameter (a variable that refers to the estimator's state, written through) *)
+Lemma fitting_own_param_changes_estimator_refuted :
+  exists h g st caller,
+    get (fst (apply 1 (old_fits_own_param h g) st caller)) 1%nat <> get st 1%nat /\
+    is_safe false (old_fits_own_param h g) = false.
 Proof.
-  exists keep, keep, (fun eb cb => cb), ff, one, st_ex, 0%nat. vm_compute. split; congruence.
+  exists keep, (fun _ v => nth 0 v []), st_ex, 0%nat. vm_compute. split; congruence.
 Qed.
 
 (* a transformer that caches on self during transform: the second call returns something else *)
@@ -53,7 +60,7 @@ Lemma caching_on_self_not_repeatable_refuted :
     let r2 := apply 1 p (fst r1) caller in
     get (fst r2) (snd r2) <> get (fst r1) (snd r1) /\ is_safe false p = false.
 Proof.
-  exists (fun eb cb => eb ++ cb), (fun eb _ => 0 :: eb), st_ex, 0%nat.
+  exists (fun eb v => eb ++ nth 0 v []), (fun eb _ => 0 :: eb), st_ex, 0%nat.
   vm_compute. split; congruence.
 Qed.
 
@@ -76,7 +83,8 @@ Qed.
 Definition bad_site : site :=
   {| sid := 0; gen_form := true; kw_ok := true; bound_whole := true; task_resolved := true;
      no_shared_rng_arg := false; task_no_global_rng := true; task_rng_from_seed := true;
-     task_no_shared_write := true; draws_before_dispatch := true |}.
+     task_no_shared_write := true; draws_before_dispatch := true;
+     njobs_none_ok := true |}.
 
 Lemma site_with_shared_rng_schedule_dependent_refuted :
   exists (tasks : list Z) s0 sched1 sched2,
